@@ -59,7 +59,54 @@ def finish (s : St) : String :=
         let flat := (c.ft.nextSibling j false).map fun i => ((c.ft.node i).info.raw.data, (c.ft.node i).info.alias)
         if decide (flat = exp) then n else n + 1
       | none => n + 1
-    s!"{s.id} corr={r.corrFails.render} judge={r.fails.render} asked={r.asked} ported={r.portCompared} vis={c.ft.size} raw={js.rawNodes} fanout={s.fanout} hiddenvis={js.hiddenWithVisible} alias={js.aliases} extra={js.extras} err={js.errors} missing={js.missing} zerowidth={js.zeroWidth} multiline={js.multiline} fields={fields} sexpok={if (sexpOKKids lang d.root.kids d.root.data.productionId 0 || hasHiddenMissing lang d.root 0) && !(lang.symMeta 0).visible then 1 else 0} stackbad={r.stackBad} anonleafok={if anonLeafOKKids lang d.root.kids d.root.data.productionId 0 then 1 else 0} hiddenextraok={if hiddenExtraOKKids lang d.root.kids d.root.data.productionId 0 then 1 else 0} hiddenmissing={if hasHiddenMissing lang d.root 0 then 1 else 0} parchk={ph.checked} parzw={ph.zeroWidth} parbad={ph.bad} parflat={flatBad} nschk={sh.checked} nsout={sh.outside} nsbad={sh.bad} nsflat={nsFlatBad} kind={s.kind}"
+    -- first_child_for_byte_spec_partial on every node with children, at sampled goals (boundaries of
+    -- the first and last three children): hypothesis ndeNode; conclusion port = fcbNode; fcbNode = flatten
+    let fcb := Id.run do
+      let mut chk := 0
+      let mut out := 0
+      let mut bad := 0
+      let mut flat := 0
+      for h : k in [0:c.ft.size] do
+        let f := c.ft[k]'h.2.1
+        let kids := f.kids.toList
+        if kids.isEmpty then continue
+        let i := f.info
+        let self : NodeRef := { t := i.raw, alias := i.alias, id := i.id, start := i.start }
+        let sample := (kids.take 3 ++ (kids.drop 3).reverse.take 3)
+        let goals := i.start.bytes :: sample.flatMap fun j => [c.ft.eb j - 1, c.ft.eb j]
+        for goal in goals do
+          if !(ndeNode lang goal self.t self.start) then out := out + 1
+          else
+            let exp := fcbNode lang goal self.t self.start
+            let got := firstChildForBytePort lang (self.t.size + 1) self goal true
+            if got.map (·.id) == exp.map (·.id) then chk := chk + 1 else bad := bad + 1
+            let fl := (c.ft.firstChildForByte k goal false).map fun j => (c.ft.node j).info.id
+            if fl != exp.map (·.id) then flat := flat + 1
+      return (chk, out, bad, flat)
+    -- descendant_for_byte_range_spec_partial from the root, for the (non-empty) range of every node
+    -- and its first byte: conclusion port = dfrIdeal; dfrIdeal = smallest spanning node of flatten
+    let dfr := Id.run do
+      let mut chk := 0
+      let mut bad := 0
+      let mut flat := 0
+      for h : k in [0:c.ft.size] do
+        let sb := c.ft.sb k
+        let eb := c.ft.eb k
+        if sb == eb then continue
+        for (rs, re) in [(sb, eb), (sb, sb + 1)] do
+          let exp := dfrIdeal lang rs re (d.root.size + 1) rootRef rootRef
+          let got := descendantForByteRangePort lang (d.root.size + 1) rootRef rs re true
+          if got.map (·.id) == some exp.id then chk := chk + 1 else bad := bad + 1
+          let fl := (c.ft.descendantForBytes 0 rs re false).map fun j => (c.ft.node j).info.id
+          if fl != some exp.id then flat := flat + 1
+      return (chk, bad, flat)
+    let psFlatBad := sh.prevs.foldl (init := 0) fun n (did, exp) =>
+      match c.byId.get? did with
+      | some j =>
+        let flat := (c.ft.prevSibling j false).map fun i => ((c.ft.node i).info.raw.data, (c.ft.node i).info.alias)
+        if decide (flat = exp) then n else n + 1
+      | none => n + 1
+    s!"{s.id} corr={r.corrFails.render} judge={r.fails.render} asked={r.asked} ported={r.portCompared} vis={c.ft.size} raw={js.rawNodes} fanout={s.fanout} hiddenvis={js.hiddenWithVisible} alias={js.aliases} extra={js.extras} err={js.errors} missing={js.missing} zerowidth={js.zeroWidth} multiline={js.multiline} fields={fields} sexpok={if (sexpOKKids lang d.root.kids d.root.data.productionId 0 || hasHiddenMissing lang d.root 0) && !(lang.symMeta 0).visible then 1 else 0} stackbad={r.stackBad} anonleafok={if anonLeafOKKids lang d.root.kids d.root.data.productionId 0 then 1 else 0} hiddenextraok={if hiddenExtraOKKids lang d.root.kids d.root.data.productionId 0 then 1 else 0} hiddenmissing={if hasHiddenMissing lang d.root 0 then 1 else 0} parchk={ph.checked} parzw={ph.zeroWidth} parbad={ph.bad} parflat={flatBad} nschk={sh.checked} nsout={sh.outside} nsbad={sh.bad} nsflat={nsFlatBad} pschk={sh.pchecked} psout={sh.poutside} psbad={sh.pbad} psflat={psFlatBad} fcbchk={fcb.1} fcbout={fcb.2.1} fcbbad={fcb.2.2.1} fcbflat={fcb.2.2.2} dfrchk={dfr.1} dfrbad={dfr.2.1} dfrflat={dfr.2.2} kind={s.kind}"
   | _, _, _ => s!"{s.id} corr=BADINPUT judge=BADINPUT asked=0"
 
 def step (s : St) (line : String) : IO St := do
